@@ -4,4 +4,5 @@ INVARIANT BareIsDefault
 INVARIANT SuffixesDistinct
 INVARIANT ExtendedExcludes
 INVARIANT LocalByDefault
+INVARIANT UseSiteIndifferent
 CHECK_DEADLOCK FALSE
